@@ -6,7 +6,8 @@
 (* handed to the document loader.                                          *)
 (* Segment atoms (the Go concretiser owns their spelling):                 *)
 (*   "a" plain, "bj" dotted name (b.json), "." and "..", "esc" a segment   *)
-(*   with a percent-escape, "uni" a non-ASCII segment.                     *)
+(*   with a percent-escape, "uni" a non-ASCII segment, "pct" a segment     *)
+(*   holding a literal percent sign (written %25).                         *)
 (***************************************************************************)
 EXTENDS Urls, FiniteSets, TLC, Json, SequencesExt
 
@@ -14,7 +15,7 @@ CONSTANTS MaxSegs,      \* maximal number of path segments of a reference
           Mode,         \* "gen" | "judge"
           InFile, OutFile
 
-Names   == {"a", "bj", "esc", "uni"}
+Names   == {"a", "bj", "esc", "uni", "pct"}
 SegAlph == Names \cup DotSegs
 
 U(scheme, host, abs, segs, hasfrag, ptr) ==
